@@ -30,7 +30,7 @@ RULE = (
     "policy results with at most one left over; S2 learn exactly once per completed chosen batch, in order, with that action "
     "and the reference relative-improvement reward of that batch, never for an unexecuted action; S3 the sampler that ran is "
     "samplers[action]; S4 at end_session both queues empty and the agent thread finished; S5 no deadlock; S6 the projection "
-    "(samplers run, learn calls) is identical across all schedules of a case. Non-trivial = a schedule with >= 1 preemption in "
+    "(samplers run, learn calls, final state of the agent incl. its generator) is identical across all schedules of a case. Non-trivial = a schedule with >= 1 preemption in "
     "a run with >= 2 sessions; distinct by (case, choice list)."
 )
 ASSUMPTIONS = [
@@ -345,6 +345,12 @@ def run_controlled(desc, losses, prefix):
         restore()
     halton_index = sched._halton_sampler_id
     res["log"] = list(ctl.log)
+    try:   # the state the agent ends in (estimates, counters, generator): must not depend on the interleaving either
+        from vlib import state as S_
+
+        res["agent_state"] = repr(S_.canon(sched._agent))
+    except Exception as e:  # noqa: BLE001
+        res["agent_state"] = f"unavailable: {e!r}"
     res["n"] = len(sched.samplers)
     res["halton"] = halton_index
     res["preemptions"] = sum(1 for (n_en, idx, cur_en) in ctl.trace if idx != 0 and cur_en)
@@ -378,6 +384,7 @@ def case_controlled(desc, ctx, out):
             bad.append(f"the calibration thread raised {res['error']}")
         b2, proj = judge(desc, res["log"], losses, res["n"], res["halton"])
         bad += b2
+        proj = (proj, res.get("agent_state"))
         projections.setdefault(proj, choice)
         if res["preemptions"] >= 1 and len(desc["shape"]) >= 2:
             c["preempted_multi_session"] = c.get("preempted_multi_session", 0) + 1
@@ -408,7 +415,10 @@ def case_controlled(desc, ctx, out):
             out["violations"].append({"msg": b + f" [schedule choice list {choice[:40]}]", "witness": dict(wit, choice_list=choice, log=[list(map(str, e)) for e in log][:80])})
     if len(projections) > 1:
         items = list(projections.items())
-        out["violations"].append({"msg": f"S6 the samplers run / learn calls depend on thread timing: {len(projections)} distinct outcomes over {nsched} schedules, e.g. {items[0][0]} vs {items[1][0]}",
+        same_log = items[0][0][0] == items[1][0][0]
+        out["violations"].append({"msg": f"S6 the samplers run / learn calls / final agent state depend on thread timing: {len(projections)} distinct outcomes over {nsched} schedules, "
+                                         + (f"same samplers and learn calls but the agent ends in a different state: {str(items[0][0][1])[:150]} vs {str(items[1][0][1])[:150]}" if same_log
+                                            else f"e.g. {items[0][0][0]} vs {items[1][0][0]}"),
                                   "witness": dict(wit, schedule_a=items[0][1], schedule_b=items[1][1])})
     c["distinct_projections_max"] = max(c.get("distinct_projections_max", 0), len(projections))
     if desc["k"] % 13 == 0:
